@@ -163,10 +163,13 @@ fn _parse_with_lexer_ctx(lexer: &mut Lexer, r: &impl Resolve, ctx: Option<&Conte
         // First backup position
         let pos_bk = lexer.get_pos();
 
-        let second_lexeme = t!(lexer.next());
+        // the integer may be the last token of the buffer (e.g. a member of an object stream)
+        let second_lexeme = t!(lexer.peek());
         if second_lexeme.is_integer() {
-            let third_lexeme = t!(lexer.next());
+            t!(lexer.next());
+            let third_lexeme = t!(lexer.peek());
             if third_lexeme.equals(b"R") {
+                t!(lexer.next());
                 // It is indeed a reference to an indirect object
                 check(flags, ParseFlags::REF)?;
                 Primitive::Reference (PlainRef {
